@@ -68,7 +68,7 @@ pub fn score_case<const N: usize, const W: usize, const QN: usize, const QW: usi
     }
     if hit.rmatches.len() == 0 && QW > 0 { assert!(!keep, "C09: a hit for a non-empty query has no highlighted span"); }
     assert!(hit.scores[ScoreType::Rating] == rating as isize, "C07: rating component is not the record's rating");
-    assert!(hit.scores[ScoreType::Chars] >= 0, "C01: matched-characters score went negative (wrap-around)");
+    assert!(hit.scores[ScoreType::Chars] <= N as isize && hit.scores[ScoreType::Chars] >= -(N as isize), "C01: matched-characters score is not a small number (silent wrap-around)");
     assert!(vh::compare_hits(&hit, &hit) == std::cmp::Ordering::Equal, "C07: hit does not tie with itself");
     crate::witness!(W == 0 || QW == 0 || hit.rmatches.len() > 0, "a match is reachable");
     std::mem::forget(hit);
@@ -104,18 +104,13 @@ pub fn local_case<const N: usize, const W: usize, const QN: usize, const QW: usi
     let b = any_txt_stems::<N, W>(rspans, rstems, true);
     let qb = any_txt_stems::<QN, QW>(qspans, qstems, qfin);
     let (qa_ref, qb_ref) = (qa.text(), qb.text());
-    let mut h1 = Hit { id: 1, title: a.text(), rating: 5, rmatches: Vec::with_capacity(1), qmatches: Vec::with_capacity(1), scores: Default::default() };
-    vh::score(&qa_ref, &mut h1);
-    let mut hb = Hit { id: 2, title: b.text(), rating: 6, rmatches: Vec::with_capacity(1), qmatches: Vec::with_capacity(1), scores: Default::default() };
-    vh::score(&qb_ref, &mut hb);
-    let mut h2 = Hit { id: 1, title: a.text(), rating: 5, rmatches: Vec::with_capacity(1), qmatches: Vec::with_capacity(1), scores: Default::default() };
-    vh::score(&qa_ref, &mut h2);
-    assert!(same_matches(&h1.rmatches, &h2.rmatches) && same_matches(&h1.qmatches, &h2.qmatches),
-            "C06/C10: a record's matches depend on what was scored before");
-    assert!(same_scores(&h1, &h2), "C06/C10: a record's scores depend on what was scored before");
-    assert!(vh::hit_matches(&qa_ref, &h1) == vh::hit_matches(&qa_ref, &h2), "C06/C10: filter verdict depends on history");
-    crate::witness!(h1.rmatches.len() > 0 && hb.rmatches.len() == 0, "A matches while B does not");
-    std::mem::forget(h1); std::mem::forget(hb); std::mem::forget(h2);
+    let (a_ref, b_ref) = (a.text(), b.text());
+    let (r1, q1) = vh::text_match(&a_ref, &qa_ref);
+    let (rb, qb_m) = vh::text_match(&b_ref, &qb_ref);
+    let (r2, q2) = vh::text_match(&a_ref, &qa_ref);
+    assert!(same_matches(&r1, &r2) && same_matches(&q1, &q2), "C06/C10: a record's matches depend on what was matched before");
+    crate::witness!(r1.len() > 0 && rb.len() == 0, "A matches while B does not");
+    std::mem::forget(r1); std::mem::forget(q1); std::mem::forget(rb); std::mem::forget(qb_m); std::mem::forget(r2); std::mem::forget(q2);
 }
 
 macro_rules! cases {
